@@ -107,6 +107,9 @@ template<typename F> std::string withType(nix::DataType dt, F f) {
 template<typename T> struct Buf { typedef std::vector<T> type; };
 template<> struct Buf<bool> { typedef std::vector<uint8_t> type; };
 
+template<typename V> void fillSentinel(std::vector<V> &buf) { if (!buf.empty()) std::memset(buf.data(), 0x5A, buf.size() * sizeof(V)); }
+template<> void fillSentinel<std::string>(std::vector<std::string> &buf) { for (auto &x : buf) x = "\x5a\x5a"; }
+
 struct Writer {
     nix::DataSet *target; nix::DataType dt; nix::NDSize count, offset; const std::vector<std::string> *vals;
     template<typename T> std::string run() {
@@ -125,6 +128,9 @@ struct Reader {
         size_t need = count.size() ? nelms(count) : nelms(source->dataExtent());
         if (n < need) throw ProtoError("read buffer shorter than the request");
         typename Buf<T>::type buf(n);
+        // the buffer a client hands in is not zeroed: fill it with a sentinel so that a read which leaves elements
+        // untouched (instead of delivering zeros for never-written data) is visible
+        fillSentinel(buf);
         source->getData(dt, buf.data(), count, offset);
         std::vector<std::string> out;
         for (size_t i = 0; i < n; i++) out.push_back(Conv<T>::to((T) buf[i]));
